@@ -106,7 +106,37 @@ def run_cases(ctx, n, tag):
                                   impl={"base": base, "variant": v}, key={"kind": "global-labelling"})
 
 
+def corpus(ctx):
+    rng = ctx.rng
+    hnd = rand_handler(rng, ["DSC", "IOU"])
+    gm = ["DSC", "IOU", "RVD", "ASSD"]
+    # an overlapping pair whose labels sum to 2^bits, more than the crop padding away from all other foreground
+    base_r = np.zeros((12, 24), np.uint8)
+    base_p = np.zeros((12, 24), np.uint8)
+    base_r[2:10, 2:10] = 1
+    base_p[2:10, 2:11] = 1
+    base_r[4:6, 20:22] = 2
+    base_p[4:6, 20:22] = 2
+    for dt, (a, b) in ((np.uint8, (128, 128)), (np.uint8, (56, 200)), (np.uint16, (32768, 32768)), (np.uint8, (100, 100))):
+        for it in ("MATCHED", "UNMATCHED"):
+            if it == "MATCHED" and a != b:
+                continue
+            p2 = np.where(base_p == 1, a, np.where(base_p == 2, 3, 0)).astype(dt)
+            r2 = np.where(base_r == 1, b, np.where(base_r == 2, 3, 0)).astype(dt)
+            cfg = E.mk_cfg(it, ["IOU", "DSC"], matcher=E.naive("IOU", (1, 2)) if it != "MATCHED" else None, handler=hnd)
+            one_case(ctx, p2, r2, cfg, gm, "corpus.wrap-sum")
+    # heavily over-segmented prediction (> 255 components) against a clean reference, semantic input
+    a = np.zeros((41, 41), np.uint8)
+    a[::2, ::2] = 1
+    b = np.zeros((41, 41), np.uint8)
+    b[5:30, 5:30] = 1
+    cfg = E.mk_cfg("SEMANTIC", ["IOU", "DSC"], matcher=E.naive("IOU", (1, 2)), handler=hnd)
+    one_case(ctx, a, b, cfg, ["DSC", "IOU", "RVD"], "corpus.many-components")
+    one_case(ctx, b, a, cfg, ["DSC", "IOU", "RVD"], "corpus.many-components")
+
+
 def run(ctx):
+    corpus(ctx)
     run_cases(ctx, ctx.scale(500, 5000), "rand")
 
 
